@@ -102,6 +102,18 @@ Caps(b, i, lim, acc) ==
        ELSE IF ~CapLenOk(t, n) THEN Bad("caps: wrong fixed size for capability type")
        ELSE Caps(b, i + n, lim, Append(acc, t))
 
+\* the fields of the capability sets that echo the connector configuration (MS-RDPBCGR 2.2.7.1.2 bitmap:
+\* preferredBitsPerPixel, desktopWidth, desktopHeight; 2.2.7.1.6 input: keyboardLayout); <<>> when the set is absent
+RECURSIVE CapDetail(_, _, _, _)
+CapDetail(b, i, lim, acc) ==
+  IF i + 3 > lim THEN acc
+  ELSE LET t == U16LE(b, i)  n == U16LE(b, i+2) IN
+       IF n < 4 THEN acc
+       ELSE CapDetail(b, i + n, lim,
+              IF t = 2 /\ n = 28 THEN [acc EXCEPT !.bitmap = [bpp |-> U16LE(b, i+4), w |-> U16LE(b, i+12), h |-> U16LE(b, i+14)]]
+              ELSE IF t = 13 /\ n = 88 THEN [acc EXCEPT !.input = [layout |-> B4(b, i+8)]]
+              ELSE acc)
+
 (***************************************************************************)
 (* Share control / share data PDUs (client to server).                     *)
 (***************************************************************************)
@@ -168,7 +180,8 @@ ShareControl(b, i, lim, base0) ==
               IF ~c.ok THEN c
               ELSE IF Len(c.types) # U16LE(b, i + 16 + lsd) THEN Bad("confirm active: numberCapabilities # number of capability sets")
               ELSE base @@ [ok |-> TRUE, kind |-> "ConfirmActive", shareId |-> B4(b, i+6),
-                            source |-> Sub(b, i+16, lsd), caps |-> c.types]
+                            source |-> Sub(b, i+16, lsd), caps |-> c.types,
+                            capDetail |-> CapDetail(b, capStart, lim, [bitmap |-> <<>>, input |-> <<>>])]
   ELSE IF pt = 23 THEN   \* 0x17 data
     IF n < 18 THEN Bad("share data: truncated header")
     ELSE IF b[i+15] # 0 THEN Bad("share data: compressedType # 0")
